@@ -852,9 +852,9 @@ static J handle(const J& cmd)
         VM& vm = vm_of(cmd);
         auto& fio = static_cast<sqf::fileio::impl_default&>(vm.r->fileio());
         std::filesystem::path p(cmd.str("path"));
-        rvutils::pbo::pbofile pbo(p);
-        reply.set("good", pbo.good());
-        if (pbo.good()) fio.add_pbo_mapping(pbo);
+        // the library entry point for mounting an archive by path (what hosts call)
+        fio.add_pbo_mapping(p);
+        reply.set("exists_after", std::filesystem::exists(p));
         reply.set("logs", vm.logger.take());
         return reply;
     }
